@@ -576,6 +576,11 @@ func (p *parent) replay(path string) {
 	fmt.Printf("REPLAY %s target=%s signature=%s\n", path, w.Target, doc.Signature)
 	switch {
 	case w.Target == "tx" && w.Case != nil:
+		// The history is re-executed with the same generated inputs; the recorded bytes are
+		// injected at the recorded index.
+		if w.Hex != "" {
+			w.Case.Override = map[int]string{w.Index: w.Hex}
+		}
 		p.runTxCase(job{Target: "tx", Batch: w.Case.Index, Case: w.Case})
 	case len(w.Window) > 0:
 		// Re-run the whole batch prefix up to the end of the window (deterministic).
